@@ -277,6 +277,10 @@ def gen_tables() -> str:
     w(f"def gcHeadBases : List Nat := {lst(g['head'])}")
     w(f"def gcOtherComparisons : List String := [{', '.join(lean_str(x) for x in g['other'])}]")
     w(f"def gcGuard : String := {lean_str(g['guard'])}")
+    w("/-- generator functions that `yield` inside a `with _wrapper_cache:` block (the lock would stay raised while the")
+    w("    generator is suspended, and collections would evict nothing meanwhile) -/")
+    w("def gcLockHeldAcrossYield : List String := [" + ", ".join(lean_str(x) for x in g.get("lock_yields", [])) + "]")
+    w(f"def gcLockBlocks : Nat := {g.get('lock_blocks', 0)}   -- number of `with _wrapper_cache:` blocks in the library")
     w("/-- `_WrapperCache.__init__/__enter__/__exit__`: what they do to `self.locks` (`none`: not of the form")
     w("    `self.locks = <int>` / `self.locks += <int>` / `self.locks -= <int>` / `self.locks = self.locks ± <int>`) -/")
     for key in ("lock_init", "lock_enter", "lock_exit"):
@@ -396,6 +400,29 @@ def gc_thresholds():
             for f in cls.body:
                 if isinstance(f, pyast.FunctionDef) and f.name in ("__init__", "__enter__", "__exit__"):
                     out[{"__init__": "lock_init", "__enter__": "lock_enter", "__exit__": "lock_exit"}[f.name]] = lock_effect(f, f.name == "__init__")
+    # `with _wrapper_cache:` blocks must not span a `yield`
+    out["lock_yields"], out["lock_blocks"] = [], 0
+    for rel in ("_delb/nodes.py", "delb/__init__.py", "_delb/utils.py", "delb/utils.py"):
+        f = REPO / rel
+        if not f.exists():
+            continue
+        for fdef in pyast.walk(pyast.parse(f.read_text())):
+            if not isinstance(fdef, (pyast.FunctionDef, pyast.AsyncFunctionDef)):
+                continue
+
+            def scan(node, locked):
+                for ch in pyast.iter_child_nodes(node):
+                    if isinstance(ch, (pyast.FunctionDef, pyast.AsyncFunctionDef, pyast.Lambda)):
+                        continue
+                    inner = locked
+                    if isinstance(ch, pyast.With) and any("_wrapper_cache" in pyast.unparse(i.context_expr) for i in ch.items):
+                        inner = True
+                        out["lock_blocks"] += 1
+                    if isinstance(ch, (pyast.Yield, pyast.YieldFrom)) and locked:
+                        out["lock_yields"].append(f"{rel}:{fdef.name}")
+                    scan(ch, inner)
+
+            scan(fdef, False)
     first = fn.body[1] if isinstance(fn.body[0], pyast.Expr) else fn.body[0]
     if isinstance(first, pyast.If) and isinstance(first.test, pyast.BoolOp) and isinstance(first.test.op, pyast.Or):
         out["guard"] = " or ".join(sorted(pyast.unparse(v) for v in first.test.values))
